@@ -864,8 +864,15 @@ def _pool_builder_is_partition(ctx, bf: FuncInfo):
     it_txt = norm(loop.iter)
     node_var = None
     if isinstance(loop.target, ast.Name):
-        if it_txt not in (g, f"{g}.nodes", f"{g}.nodes()", f"list({g})", f"sorted({g})", f"sorted({g}.nodes)", f"list({g}.nodes)", f"{g}.nodes.keys()"):
-            return False, f"{bf.name}: the appending loop does not run over every node of the graph"
+        # every node, in whatever order: the graph or its node view, possibly sorted / reversed / copied into a list
+        base_it = loop.iter
+        while isinstance(base_it, ast.Call) and isinstance(base_it.func, ast.Name) and base_it.func.id in ("sorted", "list", "tuple", "reversed") and base_it.args \
+                and all(k.arg in ("reverse", "key") for k in base_it.keywords):
+            base_it = base_it.args[0]
+        if norm(base_it) not in (g, f"{g}.nodes", f"{g}.nodes()", f"{g}.nodes.keys()"):
+            if isinstance(base_it, (ast.Subscript, ast.ListComp, ast.GeneratorExp)) and any(isinstance(x, ast.Name) and x.id == g for x in ast.walk(base_it)):
+                return False, f"{bf.name}: the appending loop runs over `{it_txt}`, a part of the nodes of the graph"
+            return None, f"{bf.name}: the appending loop runs over `{it_txt}`, which this rule does not read as every node of the graph"
         node_var = loop.target.id
     elif isinstance(loop.target, ast.Tuple) and len(loop.target.elts) == 2 and isinstance(loop.target.elts[0], ast.Name):
         # (node, attributes) pairs of every node
